@@ -14,6 +14,7 @@ def gateOp (j : Json) : R (Option (ArrOp CFloat)) := do
   let m : Option (Array CFloat) := match fam with
     | "qis" => qisMatrix floatTrig (⟨0, 1⟩ : CFloat) name (ps.getD 0 0)
     | "native" => nativeMatrix name (ps.take 2) (ps.getD 2 0)
+    | "pauliexp" => some (pauliExpMatrix name (ps.getD 0 0))      -- name = the term string, params = [time * coefficient]
     | "aqt" => aqtMatrix name (ps.getD 0 0) (ps.getD 1 0)
     | _ => none
   return m.map (fun mm => { matrix := mm, axes := qs })
